@@ -329,6 +329,33 @@ impl<K: Ord, V: Val<A>, A: Ord + Hash + Clone> Map<K, V, A> {
     }
 //@end
 
+//@extract fn src/map.rs "Map" update
+    pub fn update<F>(&self, key: impl Into<K>, ctx: AddCtx<A>, f: F) -> /*@ (r: @*/ Op<K, V, A> /*@ ) @*/
+    where
+        F: FnOnce(&V, AddCtx<A>) -> V::Op,
+    //@ requires actor_ok::<K>(), clone_ok::<A>(), forall|v: &V, c: AddCtx<A>| call_requires(f, (v, c)),
+    //@ ensures
+    //@     // the op carries exactly the dot of the context handed in, and the nested op the caller's closure built from
+    //@     // the current value under the key (a default value if the key is absent)
+    //@     r is Up, r->dot.actor == ctx.dot.actor, r->dot.counter == ctx.dot.counter,
+    //@     exists|v0: V| (if self.has(r->key) { v0 == self.val(r->key) } else { V::default.ensures((), v0) }) && #[trigger] call_ensures(f, (&v0, ctx), r->op),
+    {
+        let key = key.into();
+        let dot = ctx.dot.clone();
+        //@ let ghost mut gv0: V = arbitrary();
+        let op = match self.entries.get(&key).map(|e /*@ : &Entry<V, A> @*/ | /*@ -> (o: &V) ensures *o == e.val { @*/ &e.val /*@ } @*/ ) {
+            Some(data) => /*@ { proof { gv0 = *data; } @*/ f(data, ctx) /*@ } @*/ ,
+            None => /*@ { let dv = V::default(); proof { gv0 = dv; } @*/ f( /*@<*/ &V::default() /*@>*/ /*@ &dv @*/ , ctx) /*@ } @*/ ,
+        };
+        //@ proof { assert((if self.has(key) { gv0 == self.val(key) } else { V::default.ensures((), gv0) }) && call_ensures(f, (&gv0, ctx), op)); }
+
+        //@ let r =
+        Op::Up { dot, key, op }
+        //@ ; proof { assert(r->key == key && r->op == op); assert((if self.has(r->key) { gv0 == self.val(r->key) } else { V::default.ensures((), gv0) }) && call_ensures(f, (&gv0, ctx), r->op)); }
+        //@ r
+    }
+//@end
+
 //@extract fn src/map.rs "Map" rm
     pub fn rm(&self, key: impl Into<K>, ctx: RmCtx<A>) -> /*@ (r: @*/ Op<K, V, A> /*@ ) @*/
     //@ requires actor_ok::<K>(),
